@@ -35,6 +35,11 @@ fn write_out(dir: &str, o: &Out, tie: &str, extra: &str) {
     s.push_str(&o.kinds.iter().map(|(k, v)| format!("\"{}\": {}", k, v)).collect::<Vec<_>>().join(", "));
     s.push_str("},\n");
     s.push_str(extra);
+    for (name, t) in [("doc_link_matrix", &o.link_matrix), ("doc_link_paths", &o.link_paths), ("named_ref_matrix", &o.ref_matrix), ("link_resolutions", &o.link_resolutions)] {
+        if !t.is_empty() {
+            writeln!(s, " \"{}\": {{{}}},", name, t.iter().map(|(k, v)| format!("\"{}\": {}", k, v)).collect::<Vec<_>>().join(", ")).unwrap();
+        }
+    }
     s.push_str(" \"samples\": [");
     s.push_str(&o.samples.iter().take(4).map(|x| format!("\"{}\"", hex(x.as_bytes()))).collect::<Vec<_>>().join(", "));
     s.push_str("]\n}\n");
@@ -192,7 +197,9 @@ fn mutate(rng: &mut Rng, s: &str) -> String {
     cur
 }
 
-const DOC_PIECES: [&str; 48] = [
+const DOC_PIECES: [&str; 58] = [
+    "::dep_a::Foo", "::zeta::Foo", "[`::zeta::Foo`]", "[x](::Alpha::Bar::A)", "[`::dep_b::Id`]", "::main::", "::self::", "dep_a", "zeta",
+    "[y](::dep_a::Svc::f::args)",
     "[", "]", "(", ")", "`", "Foo", "self::", "::", "nope", " ", " ", "\t", "\r", "é", "中", "😀", "*", "_", "<", ">",
     "http://x.y", "!", "\\", "|", "-", "#", "&amp;", "\"", "'", "--", "...", "[^", "]:", "x", "X", "Bar", "dep_a::Foo",
     "[Foo]", "[x](Foo)", "[`Foo`]", "[a\rb]", "\u{a0}", "\u{301}", "a", "1.", "- ", "> ", "    ",
@@ -272,7 +279,76 @@ struct SpanCase {
 
 /// replicate BrokenDocLink::validate on every doc list of the main schema with the same comrak
 /// options, and collect the source positions of the links that do not resolve
-fn expected_broken_links(p: &aldrin_parser::Parser) -> Vec<SpanCase> {
+fn resolved_name(r: &aldrin_parser::ResolvedLink) -> &'static str {
+    use aldrin_parser::ResolvedLink as R;
+    match r {
+        R::Foreign => "Foreign",
+        R::Schema(..) => "Schema",
+        R::Struct(..) => "Struct",
+        R::Field(..) => "Field",
+        R::FallbackField(..) => "FallbackField",
+        R::Enum(..) => "Enum",
+        R::Variant(..) => "Variant",
+        R::FallbackVariant(..) => "FallbackVariant",
+        R::Service(..) => "Service",
+        R::Function(..) => "Function",
+        R::FunctionFallback(..) => "FunctionFallback",
+        R::Event(..) => "Event",
+        R::EventFallback(..) => "EventFallback",
+        R::Const(..) => "Const",
+        R::Newtype(..) => "Newtype",
+        R::FunctionArgsStruct(..) | R::FunctionOkStruct(..) | R::FunctionErrStruct(..) | R::FunctionArgsEnum(..) | R::FunctionOkEnum(..) | R::FunctionErrEnum(..) => "FunctionPartInlineType",
+        R::EventStruct(..) | R::EventEnum(..) => "EventInlineType",
+        R::EventField(..) | R::EventFallbackField(..) | R::EventVariant(..) | R::EventFallbackVariant(..) => "EventInlineMember",
+        _ => "FunctionPartInlineMember",
+    }
+}
+
+fn resolve_error_name(e: &aldrin_parser::ResolveLinkError, p: &aldrin_parser::Parser) -> String {
+    use aldrin_parser::ResolveLinkError as E;
+    match e {
+        E::InvalidFormat => "InvalidFormat".into(),
+        E::SchemaNotFound(name) => {
+            // the two lookups behind this error: the import list of the linking schema, then the schema map
+            if p.main_schema().imports().iter().any(|i| i.schema_name().value() == *name) {
+                "SchemaNotFound:imported_but_not_in_schema_map".into()
+            } else if p.get_schema(name).is_some() {
+                "SchemaNotFound:not_imported_but_in_schema_map".into()
+            } else {
+                "SchemaNotFound:not_imported".into()
+            }
+        }
+        E::DefinitionNotFound(s, _) => {
+            if s.name() == p.main_schema().name() {
+                "DefinitionNotFound:own_schema".into()
+            } else if s.source().is_none() {
+                "DefinitionNotFound:unreadable_import".into()
+            } else if s.definitions().is_empty() {
+                "DefinitionNotFound:import_without_definitions".into()
+            } else {
+                "DefinitionNotFound:import".into()
+            }
+        }
+        E::FieldNotFound(..) => "FieldNotFound".into(),
+        E::InlineFieldNotFound(..) => "InlineFieldNotFound".into(),
+        E::LinkIntoField(..) => "LinkIntoField".into(),
+        E::VariantNotFound(..) => "VariantNotFound".into(),
+        E::InlineVariantNotFound(..) => "InlineVariantNotFound".into(),
+        E::LinkIntoVariant(..) => "LinkIntoVariant".into(),
+        E::ItemNotFound(..) => "ItemNotFound".into(),
+        E::InvalidFunctionPart(..) => "InvalidFunctionPart".into(),
+        E::NoFunctionArgsInlineType(..) => "NoFunctionArgsInlineType".into(),
+        E::NoFunctionOkInlineType(..) => "NoFunctionOkInlineType".into(),
+        E::NoFunctionErrInlineType(..) => "NoFunctionErrInlineType".into(),
+        E::InvalidEventPart(..) => "InvalidEventPart".into(),
+        E::NoEventInlineType(..) => "NoEventInlineType".into(),
+        E::LinkIntoConst(..) => "LinkIntoConst".into(),
+        E::LinkIntoNewtype(..) => "LinkIntoNewtype".into(),
+    }
+}
+
+fn expected_broken_links(p: &aldrin_parser::Parser) -> (Vec<SpanCase>, gen::Tally) {
+    let mut tally = gen::Tally::new();
     use comrak::nodes::NodeValue;
     use comrak::options::BrokenLinkReference;
     use comrak::{Arena, Options, ResolvedReference};
@@ -303,7 +379,16 @@ fn expected_broken_links(p: &aldrin_parser::Parser) -> Vec<SpanCase> {
         for node in root.descendants() {
             let data = node.data.borrow();
             let NodeValue::Link(ref link) = data.value else { continue };
-            if let Err(e) = lr.resolve(&link.url) {
+            let res = lr.resolve(&link.url);
+            match &res {
+                Ok(r) => {
+                    let other = !matches!(r, aldrin_parser::ResolvedLink::Foreign)
+                        && link.url.strip_prefix("::").map(|r| r.split("::").next().map(|c| c != "self" && c != schema.name()).unwrap_or(false)).unwrap_or(false);
+                    *tally.entry(format!("Ok:{}{}", resolved_name(r), if other { ":other_schema" } else { "" })).or_insert(0) += 1
+                }
+                Err(e) => *tally.entry(format!("Err:{}", resolve_error_name(e, p))).or_insert(0) += 1,
+            }
+            if let Err(e) = res {
                 let sp = data.sourcepos;
                 out.push(SpanCase {
                     docs: docs.iter().map(|d| (d.span_inner().start, d.span_inner().end, d.value_inner().to_owned())).collect(),
@@ -313,7 +398,7 @@ fn expected_broken_links(p: &aldrin_parser::Parser) -> Vec<SpanCase> {
             }
         }
     }
-    out
+    (out, tally)
 }
 
 fn span_of(c: &SpanCase) -> Result<(usize, usize), ()> {
@@ -360,10 +445,18 @@ fn c17_one(src: &Option<String>, imports: &Imports, variant: u64, stream: &str, 
             let k = run::kind_of(s);
             k == "DuplicateFunctionId" || k == "DuplicateEventId" || k == "DuplicateStructFieldId" || k == "DuplicateEnumVariantId"
         });
+        let is_free_id = |k: &str| k == "DuplicateFunctionId" || k == "DuplicateEventId" || k == "DuplicateStructFieldId" || k == "DuplicateEnumVariantId";
+        let both_known = only1.iter().chain(only2.iter()).all(|s| {
+            let k = run::kind_of(s);
+            k == "DuplicateServiceUuid" || is_free_id(&k)
+        });
         let what = if all_dup_uuid {
             "diagnostics_not_repeatable:DuplicateServiceUuid_attribution"
         } else if all_free_id {
             "diagnostics_not_repeatable:free_id_suggestion"
+        } else if both_known {
+            // the two known order dependencies in one input, nothing else differs
+            "diagnostics_not_repeatable:DuplicateServiceUuid_attribution+free_id_suggestion"
         } else {
             "diagnostics_not_repeatable:other"
         };
@@ -383,7 +476,14 @@ fn c17_one(src: &Option<String>, imports: &Imports, variant: u64, stream: &str, 
     if let Some(g) = &a.generated {
         o.count(if g.starts_with("!ERR") { "class:codegen_err" } else { "class:codegen_ok" });
     }
-    o.count(if a.syntax { "class:syntax_error" } else if a.n_errors > 0 { "class:semantic_errors" } else { "class:no_errors" });
+    let class = if a.syntax { "syntax_error" } else if a.n_errors > 0 { "semantic_errors" } else { "no_errors" };
+    o.count(&format!("class:{}", class));
+    o.count(&format!("stream_class:{}:{}", stream, class));
+    if stream.ends_with("_clean") {
+        for s in a.sigs.iter().filter(|s| s.starts_with("E:")) {
+            o.count(&format!("clean_world_error:{}", run::kind_of(s)));
+        }
+    }
     o.count(if a.formatted.is_some() { "class:formatted" } else { "class:formatter_refused" });
     for s in &a.sigs {
         *o.kinds.entry(run::kind_of(s)).or_insert(0) += 1;
@@ -415,7 +515,10 @@ fn c17_one(src: &Option<String>, imports: &Imports, variant: u64, stream: &str, 
             }
             match catch(|| expected_broken_links(&p)) {
                 Err(m) => writeln!(tie, "comrak_replication_panic {} input={}", m.replace(' ', "_"), hex(s.as_bytes())).unwrap(),
-                Ok(cases) => {
+                Ok((cases, tally)) => {
+                    for (k, v) in tally {
+                        *o.link_resolutions.entry(k).or_insert(0) += v;
+                    }
                     let mut exp: Vec<(usize, usize)> = Vec::new();
                     let mut lines = Vec::new();
                     let mut underflow = false;
@@ -459,30 +562,215 @@ fn c17_one(src: &Option<String>, imports: &Imports, variant: u64, stream: &str, 
     }
 }
 
+/// the names the fixed dependency texts define (read off the real parser's AST once)
+struct Fixed {
+    a: gen::Names,
+    b: gen::Names,
+    rich: gen::Names,
+}
+
+fn fixed_names() -> Fixed {
+    let of = |src: &str, imps: &Imports| -> gen::Names {
+        catch(|| {
+            let p = run::parse("dep", src, imps);
+            assert!(p.errors().is_empty(), "a fixed dependency has errors: {:?}", p.errors());
+            gen::names_of(&ast::from_real(p.main_schema()))
+        })
+        .unwrap_or_default()
+    };
+    Fixed { a: of(run::DEP_A, &Vec::new()), b: of(run::DEP_B, &run::std_imports()), rich: of(run::DEP_RICH, &Vec::new()) }
+}
+
+/// schema names a generated main schema imports or mentions
+const SCHEMA_NAMES: [&str; 18] = [
+    "dep_a", "dep_b", "zeta", "Alpha", "cfg", "other_schema", "X1", "rich", "struct", "import", "fn", "u8x", "é", "_", "__x_", "Self", "main",
+    "self",
+];
+
+/// a text that cannot parse whatever it starts with
+fn bad_source(rng: &mut Rng) -> String {
+    match rng.below(4) {
+        0 => format!("{}\n@", soup(rng)),
+        1 => format!("{}\n@", run::DEP_A),
+        2 => format!("{}\n}}", near_valid(rng).replace('}', "")),
+        _ => rng.pick(&["struct", "@", "import ;", "struct Foo { a @ 1 = ; }", "\u{feff}x", "/// doc without item\n"]).to_string(),
+    }
+}
+
+/// C17 stream `valid_doc_links`: a generated main schema in a world of schemas in known import
+/// situations; doc links (every link form) and named references whose schema component and item
+/// path are drawn from that world.  Returns the source text and the resolver entries.
+fn semantic(rng: &mut Rng, fx: &Fixed, o: &mut Out) -> (String, Imports, bool) {
+    use gen::{Names, Target, World};
+    let clean = rng.chance(1, 4);
+    let budget = *rng.pick(&[10i64, 30, 30, 60]);
+    let mut a = gen::Gen::new(rng, budget).schema();
+    if clean {
+        gen::make_clean(rng, &mut a);
+    }
+    let own = gen::names_of(&a);
+    let own_uuid = a.defs.iter().find_map(|d| if let ast::Def::Service(s) = d { Some(s.uuid.clone()) } else { None });
+    let mut targets: Vec<Target> = Vec::new();
+    let mut entries: Imports = Vec::new();
+    let mut import_names: Vec<String> = Vec::new();
+    let pool: &[&str] = if clean { &["dep_a", "dep_b", "rich"] } else { &SCHEMA_NAMES };
+    let n = if clean { rng.below(4) } else { *rng.pick(&[0u64, 1, 2, 3, 4, 4, 6, 8]) };
+    for _ in 0..n {
+        let name = rng.pick(pool).to_string();
+        if import_names.contains(&name) {
+            if !clean && rng.chance(1, 4) {
+                import_names.push(name); // a duplicate import statement
+            }
+            continue;
+        }
+        import_names.push(name.clone());
+        if name == run::MAIN {
+            continue; // importing oneself: the schema map has it, it is the `self` situation
+        }
+        let sit: &'static str = if clean { "resolves" } else { *rng.pick(&["missing", "unreadable", "syntax_error", "resolves"]) };
+        let names = match sit {
+            "missing" => Names::default(),
+            "unreadable" => {
+                entries.push((name.clone(), None));
+                Names::default()
+            }
+            "syntax_error" => {
+                entries.push((name.clone(), Some(bad_source(rng))));
+                Names::default()
+            }
+            _ => {
+                let kind = if clean {
+                    match name.as_str() {
+                        "dep_a" => 0,
+                        "rich" => 1,
+                        _ => 5,
+                    }
+                } else {
+                    rng.below(5)
+                };
+                let (src, names) = match kind {
+                    0 => (run::DEP_A.to_owned(), fx.a.clone()),
+                    1 => (run::DEP_RICH.to_owned(), fx.rich.clone()),
+                    2 => {
+                        let b = gen::Gen::new(rng, 20).schema();
+                        (layout::render(rng, &b), gen::names_of(&b))
+                    }
+                    3 => {
+                        // a cycle through main: refers back to a type of main and shares a service uuid with it
+                        let t = if own.types.is_empty() { "Nope".to_owned() } else { rng.pick(&own.types).0.clone() };
+                        let t = if gen::kw_prefixed(&t) { "Nope".to_owned() } else { t };
+                        let uuid = own_uuid.clone().unwrap_or_else(|| "6ac4a2ad-5b0a-4a5e-9a3c-0a1b2c3d4e5f".into());
+                        let src = format!("import {m};\n\nstruct Cyc {{\n    a @ 1 = {m}::{t};\n    required b @ 2 = option<{m}::{t}>;\n}}\n\nservice CycSvc {{\n    uuid = {uuid};\n    version = 1;\n\n    fn f @ 1 = Cyc;\n}}\n", m = run::MAIN);
+                        let mut nm = Names::default();
+                        nm.paths = ["Cyc", "Cyc::a", "Cyc::b", "CycSvc", "CycSvc::f"].iter().map(|s| s.to_string()).collect();
+                        nm.near = ["Cyc::a::x", "Cyc::c", "CycSvc::f::ok", "CycSvc::f::args", "CycSvc::g"].iter().map(|s| s.to_string()).collect();
+                        nm.types = vec![("Cyc".into(), 0)];
+                        nm.others = vec!["CycSvc".into()];
+                        (src, nm)
+                    }
+                    4 => {
+                        // loads `hidden` into the schema map without main importing it
+                        let src = "import hidden;\n\nstruct Via {\n    a @ 1 = hidden::Foo;\n}\n\nnewtype ViaKey = hidden::Foo;\n".to_owned();
+                        if !entries.iter().any(|(n, _)| n == "hidden") {
+                            entries.push(("hidden".into(), Some(run::DEP_A.into())));
+                        }
+                        let mut nm = Names::default();
+                        nm.paths = ["Via", "Via::a", "ViaKey"].iter().map(|s| s.to_string()).collect();
+                        nm.near = ["Via::a::x", "ViaKey::x", "Via::b"].iter().map(|s| s.to_string()).collect();
+                        nm.types = vec![("Via".into(), 0), ("ViaKey".into(), 1)];
+                        (src, nm)
+                    }
+                    _ => (run::DEP_B.to_owned(), fx.b.clone()),
+                };
+                entries.push((name.clone(), Some(src)));
+                names
+            }
+        };
+        targets.push(Target { name, situation: sit, names });
+    }
+    // DEP_B imports dep_a: without an entry it would have an error of its own
+    if clean && import_names.iter().any(|n| n == "dep_b") && !entries.iter().any(|(n, _)| n == "dep_a") {
+        entries.push(("dep_a".into(), Some(run::DEP_A.into())));
+    }
+    // schemas main does not import: unknown everywhere, known to the resolver but never loaded,
+    // loaded through another import (in the schema map), names of the pool that were not drawn
+    let imported = |n: &str| import_names.iter().any(|x| x == n);
+    targets.push(Target { name: "nope".into(), situation: "not_imported", names: Names::default() });
+    if !imported("extra") {
+        entries.push(("extra".into(), Some(run::DEP_A.into())));
+        targets.push(Target { name: "extra".into(), situation: "not_imported", names: fx.a.clone() });
+    }
+    for (n, _) in entries.clone() {
+        if !imported(&n) && n != "extra" {
+            targets.push(Target { name: n, situation: "not_imported", names: fx.a.clone() });
+        }
+    }
+    let spare = rng.pick(&SCHEMA_NAMES).to_string();
+    if !imported(&spare) && spare != run::MAIN && spare != "self" && !gen::KEYWORDS.contains(&spare.as_str()) {
+        targets.push(Target { name: spare, situation: "not_imported", names: Names::default() });
+    }
+    for _ in 0..2 {
+        let k = rng.pick(&gen::KEYWORDS).to_string();
+        if !imported(&k) {
+            targets.push(Target { name: k, situation: "keyword", names: Names::default() });
+        }
+    }
+    targets.push(Target { name: run::MAIN.into(), situation: "self", names: own });
+    let w = World { targets };
+    a.imports = import_names.iter().map(|n| ast::Import { comment: Vec::new(), name: n.clone() }).collect();
+    gen::retarget_refs(rng, &mut a, &w, clean, &mut o.ref_matrix);
+    gen::inject_link_docs(rng, &mut a, &w, &mut o.link_matrix, &mut o.link_paths);
+    o.count(if clean { "world:clean" } else { "world:any" });
+    for t in &w.targets {
+        if import_names.contains(&t.name) {
+            o.count(&format!("world_import:{}", t.situation));
+        }
+    }
+    (layout::render(rng, &a), entries, clean)
+}
+
 fn c17(dir: &str, n: u64, list: &str) {
     let files = read_list(list);
     let mut rng = Rng::new(env_u64("VERIF_SEED", 1));
     let mut o = Out::default();
     let mut tie = String::new();
+    let fx = fixed_names();
+    for f in gen::LINK_FORMS {
+        for s in gen::SITUATIONS {
+            o.link_matrix.insert(format!("{f}|{s}"), 0);
+        }
+    }
     for i in 0..n {
         let variant = rng.below(256);
         let stream = rng.below(10);
+        let mut world_imports: Option<Imports> = None;
         let (src, name): (Option<String>, &str) = match stream {
             0 | 1 => (Some(soup(&mut rng)), "token_soup"),
-            2 => (Some(near_valid(&mut rng)), "mutated_generated"),
+            2 if rng.chance(1, 2) => (Some(near_valid(&mut rng)), "mutated_generated"),
+            2 => {
+                let (s, imps, _) = semantic(&mut rng, &fx, &mut o);
+                world_imports = Some(imps);
+                (Some(mutate(&mut rng, &s)), "mutated_doc_links")
+            }
             3 | 4 | 5 if !files.is_empty() => {
                 let (_, s) = &files[rng.below(files.len() as u64) as usize];
                 (Some(mutate(&mut rng, s)), "mutated_repository_file")
             }
-            6 if !files.is_empty() => (Some(files[(i as usize) % files.len()].1.clone()), "repository_file"),
+            6 if !files.is_empty() && rng.chance(1, 3) => (Some(files[(i as usize) % files.len()].1.clone()), "repository_file"),
             9 if rng.chance(1, 10) => (None, "unreadable_main"),
-            _ => {
+            7 => {
                 let mut a = gen::Gen::new(&mut rng, 30).schema();
                 inject_docs(&mut rng, &mut a);
                 (Some(layout::render(&mut rng, &a)), "valid_adversarial_docs")
             }
+            _ => {
+                let (s, imps, clean) = semantic(&mut rng, &fx, &mut o);
+                world_imports = Some(imps);
+                (Some(s), if clean { "valid_doc_links_clean" } else { "valid_doc_links" })
+            }
         };
         let imports: Imports = match rng.below(6) {
+            _ if world_imports.is_some() => world_imports.take().unwrap(),
             0 => Vec::new(),
             1 | 2 => run::std_imports(),
             3 => vec![("dep_a".into(), None), ("dep_b".into(), Some(run::DEP_B.into()))],
